@@ -18,6 +18,7 @@ import Driver.MpiDrv
 import Driver.ElasticDrv
 import Driver.CtxDrv
 import Driver.JoinDrv
+import Driver.PlaceDrv
 /-! `driver <model>`: reads harness output (cases) on stdin, prints one verdict line per case. -/
 open Driver
 
@@ -43,6 +44,7 @@ def dispatch (model : String) (c : Case) : String :=
   | "elastic" => ElasticDrv.runCase c
   | "ctx" => CtxDrv.runCase c
   | "join" => JoinDrv.runCase c
+  | "place" => PlaceDrv.runCase c
   | _ => s!"case {c.id} reject 0 unknown-model-{model}"
 
 def main (args : List String) : IO UInt32 := do
